@@ -303,10 +303,16 @@ type pairInst struct {
 	defs  []reqDef
 	got   []result
 	want  []result
+	// prefix: requests served one after the other BEFORE the pair goes in flight (what an
+	// earlier request leaves in pooled / cached state meets two concurrent requests)
+	prefix []reqDef
 }
 
 func (p *pairInst) Body() {
 	s := newServer(nil)
+	for _, rd := range p.prefix {
+		serve(s, rd)
+	}
 	p.got = make([]result, len(p.defs))
 	done := make(chan int, len(p.defs))
 	for i := range p.defs {
@@ -408,6 +414,29 @@ func scenarios(tier string) []*explore.Scenario {
 				New: func() explore.Instance {
 					return &pairInst{names: names, defs: []reqDef{a, b}, want: []result{fresh(a, nil), fresh(b, nil)}}
 				}})
+		}
+	}
+	// a history prefix, then a pair in flight: e.g. a pooled object released twice by an
+	// error path is then handed to two concurrent requests
+	prefixes := []string{"post-invalid-json"}
+	members := []string{"post-A", "post-B-vars", "post-echo-novar", "post-plain"}
+	if tier == "thorough" {
+		prefixes = append(prefixes, "post-B-vars", "post-empty-object", "post-unknown-field")
+		members = append(members, "post-echo-var", "post-A-ext", "sse")
+	}
+	for _, pn := range prefixes {
+		for i, an := range members {
+			for j, bn := range members {
+				if j < i {
+					continue
+				}
+				pre, a, b := byName[pn], byName[an], byName[bn]
+				names := []string{a.Name, b.Name}
+				out = append(out, &explore.Scenario{Name: "after " + pn + ": pair " + a.Name + "+" + b.Name, Bound: &two, Meta: map[string]any{"prefix": pn, "pair": names},
+					New: func() explore.Instance {
+						return &pairInst{names: names, defs: []reqDef{a, b}, want: []result{fresh(a, nil), fresh(b, nil)}, prefix: []reqDef{pre}}
+					}})
+			}
 		}
 	}
 	return out
